@@ -94,7 +94,7 @@ PROPS["C17"] = dict(
           "source; GetResults is compared, in order, with a 30-line specification function, or must return an error; never panic. "
           "distinct_nontrivial = distinct record shapes (sequence of set kinds, main-provider positions, metadata kinds, mismatch kinds) with "
           "extended providers."),
-    floors={"quick": {"shape_md-shorter": 500, "shape_md-longer": 500, "shape_md-nil": 500, "via_http_json": 1000, "expanded_results": 5000, "distinct": 3000}},
+    floors={"quick": {"shape_md-shorter": 500, "shape_md-longer": 500, "shape_md-nil": 500, "via_http_json": 1000, "expanded_results": 5000, "updated_in_place_then_refreshed": 2000, "distinct": 3000}},
     level_text=("Exploration: GetResults is executed on seeded records covering every clause of the expansion rules and every list-length "
                 "mismatch a source can deliver, and compared with an independently written specification."),
     level_note="Trusted: the specification function c17Spec in harness/props/c17.go (written from the property statement and the IPNI spec).",
